@@ -110,7 +110,9 @@ EXPLANATION = (
     "event (registered after its hand-over point) is pending ahead of the in-time ones (R12); tdma_schedule is evaluated for "
     "every number of items already in its frame (counted up to exactly ARRAY_SIZE(item), then refused) and every store of the "
     "witness folds is performed in the declared type of the member it hits, bit-field widths included (R11); the declared "
-    "types of num_items and cur_bucket can represent 0..ARRAY_SIZE(item) and 0..ARRAY_SIZE(bucket)-1 (R13).")
+    "types of num_items and cur_bucket can represent 0..ARRAY_SIZE(item) and 0..ARRAY_SIZE(bucket)-1 (R13); every function whose "
+    "address the scheduler compares call-backs with (the end-of-set marker) has external linkage, so the marker the sets of "
+    "other translation units store is the compared object (R14).")
 ASSUMPTIONS = [
     "type-based aliasing: stores through int*/non-scheduler lvalues do not modify scheduler fields; "
     "distinct field names of the scheduler structs do not overlap",
@@ -143,6 +145,8 @@ ASSUMPTIONS = [
     "(tail of l1_sync), so a set handed to tdma_schedule_set(offset) in frame fn starts in frame fn + offset; the events "
     "whose hand-over is judged are registered at least the scheduling lead ahead (what becomes of an overdue event is not "
     "judged) and frame numbers do not wrap inside a witness history",
+    "item sets handed to tdma_schedule_set are defined in translation units other than tdma_sched.c (prim_*.c; checked in "
+    "the thorough tier), so a marker with internal linkage declared in a header is never the compared function (R14)",
     "bit-fields: a bit-field of an unsigned type is unsigned; a value a signed bit-field can only hold under one of the two "
     "signedness conventions (gcc default / AAPCS) is no verdict",
 ]
@@ -5002,6 +5006,10 @@ class SchedWorld:
     def __init__(self, a):
         self.a = a
         self.ev = ev = CEval(a.tu)
+        # file-scope objects the translation unit itself defines (a private overflow counter, ...) are extra state of
+        # the world: static storage, created zeroed / with their initialiser on first use -- the state after start-up,
+        # so whatever a witness run shows from there is a reachable behaviour
+        ev.lazy_globals = True
         self.sched = sched = ev.make("struct tdma_scheduler", zero=True)
         bk = sched.get("bucket")
         if not isinstance(bk, list) or len(bk) != a.NFR or any(
@@ -5354,6 +5362,97 @@ def r13_counter_types(a):
     a.L.floor(R, "scheduler counters whose declared type was read from the AST", n, 2)
 
 
+# ---------------------------------------------------------------- R14 the end-of-set marker is one object program-wide
+
+def fn_ref(n):
+    """Name of the function a value expression denotes (f, &f, through parentheses / casts), else None."""
+    while isinstance(n, dict):
+        k, ks = kind(n), kids(n)
+        if k in ("ParenExpr", "ImplicitCastExpr", "CStyleCastExpr", "ConstantExpr") and ks:
+            n = ks[-1]
+        elif k == "UnaryOperator" and n.get("opcode") == "&" and ks:
+            n = ks[0]
+        else:
+            break
+    rd = n.get("referencedDecl", {}) if isinstance(n, dict) and kind(n) == "DeclRefExpr" else {}
+    return rd.get("name") if rd.get("kind") == "FunctionDecl" else None
+
+
+def linkage(tu, name):
+    """-> (internal?, description, declaring file, line) of function `name` as this translation unit sees it.  C11
+    6.2.2: `static` on a declaration gives internal linkage, later declarations inherit it -- the function is then
+    a separate object (own address) in every translation unit that contains the declaration."""
+    ds = [d for d in kids(tu.ast) if kind(d) == "FunctionDecl" and d.get("name") == name]
+    if not ds:
+        return None
+    st = [d for d in ds if d.get("storageClass") == "static"]
+    d = (st or ds)[0]
+    body = [x for x in ds if any(kind(c) == "CompoundStmt" for c in kids(x))]
+    f = (body or [d])[0].get("_file") or ""
+    if not st:
+        return (False, "external linkage", f, d.get("_line"))
+    return (True, "internal linkage (static%s, %s in %s): a separate function with its own address in every translation "
+            "unit" % (" inline" if d.get("inline") else "", "defined" if body else "declared", os.path.basename(f)),
+            d.get("_file") or f, d.get("_line"))
+
+
+def r14_marker_identity(a):
+    """C08.R14 -- decides a premise of "a multi-frame set places the items of its k-th frame k frames after its first
+    ... nothing runs in a frame it was not scheduled for": the scheduler recognises the end of a set (and nothing
+    else does) by comparing an item's call-back ADDRESS with a marker function.  The sets are objects of other
+    translation units (prim_*.c), so the marker they store is the compared one only if that function is ONE object
+    program-wide, i.e. has external linkage.  With internal linkage declared in a header every includer stores the
+    address of its own copy: the comparison is false for every set defined outside tdma_sched.c, the marker is
+    placed as an item and the walk continues into the memory behind the set.  Read from the clang AST: every ==/!=
+    in tdma_sched.c with a function designator as operand names a marker; its linkage is that of its declarations
+    (storage class), wherever and however they are spelled."""
+    R = "C08.R14"
+    tu = a.tu
+    marks = {}
+    for fname, fd in tu.functions.items():
+        if not any(kind(c) == "CompoundStmt" for c in kids(fd)):
+            continue
+        for n in walk(fd):
+            if kind(n) == "BinaryOperator" and n.get("opcode") in ("==", "!=") and len(kids(n)) == 2:
+                for o in kids(n):
+                    m = fn_ref(o)
+                    if m:
+                        marks.setdefault(m, set()).add(fname)
+    a.markers = marks
+    for m, users in sorted(marks.items()):
+        lk = linkage(tu, m)
+        if lk is None:
+            raise AnalysisError("%s(): no declaration of the compared function in the translation unit" % m)
+        internal, text, f, line = lk
+        if internal and os.path.basename(f) == os.path.basename(MAIN):
+            raise AnalysisError("%s() is private to %s: which marker the sets of other translation units store cannot be "
+                                "told -- unclassifiable" % (m, a.F))
+        H = os.path.join(FW, "include/layer1/tdma_sched.h")
+        where = H if f.endswith("tdma_sched.h") and os.path.isfile(os.path.join(a.L.repo, H)) else a.F
+        a.L.ob(R, where, m, "%s(), whose address %s() compare(s) call-backs with to find the end of a set, is the same "
+               "function in every translation unit that stores it into a set" % (m, "() / ".join(sorted(users))),
+               "external linkage", text, not internal, line)
+    a.L.floor(R, "marker functions the scheduler compares call-back addresses with", len(marks), 1)
+
+
+def marker_users(a, tu, found):
+    """Thorough tier: a translation unit that names a marker function sees it with external linkage."""
+    marks = getattr(a, "markers", None) or {}
+    used = set()
+    if marks:
+        for n in walk(tu.ast):
+            if kind(n) == "DeclRefExpr" and n.get("referencedDecl", {}).get("kind") == "FunctionDecl" \
+                    and n["referencedDecl"].get("name") in marks:
+                used.add(n["referencedDecl"]["name"])
+    for m in sorted(used):
+        lk = linkage(tu, m)
+        if lk is None:
+            continue
+        found.append(1)
+        a.L.ob("C08.R14", tu.rel, m, "%s() stored by %s is the function tdma_sched.c compares with" % (
+            m, os.path.basename(tu.rel)), "external linkage", lk[1], not lk[0], lk[3])
+
+
 # ---------------------------------------------------------------- R12 the GSM-time feeder keeps its list ordered
 
 GSM = "layer1/sched_gsmtime.c"
@@ -5582,6 +5681,8 @@ def scan_writers(a, relfile, incdir, seen):
     tu = TU(a.L.repo, "fw", relfile, L=a.L, extra_flags=("-I" + incdir,))
     if relfile == GSM:
         a.tus[relfile] = tu               # (R12 evaluates this translation unit)
+    if getattr(a, "thorough", False):
+        marker_users(a, tu, a.marker_tus)
     found = []
     for fname, fd in tu.functions.items():
         if not any(kind(c) == "CompoundStmt" for c in kids(fd)):
@@ -5653,6 +5754,8 @@ def who_may_write(a, tier):
     finally:
         shutil.rmtree(tmp, ignore_errors=True)
     a.L.floor("C08.R2", "layer1 translation units scanned for writers of the scheduler ring", len(files), floor)
+    if tier == "thorough" and getattr(a, "markers", None):
+        a.L.floor("C08.R14", "other translation units that store an end-of-set marker", len(a.marker_tus), 3)
 
 
 def ring_proofs(a):
@@ -5672,6 +5775,8 @@ def run(L, tier):
     # by another group is still reported
     L.stage(r1_capacity, a)
     L.stage(r2_ring, a)
+    a.thorough, a.marker_tus = tier == "thorough", []
+    L.stage(r14_marker_identity, a)
     L.stage(who_may_write, a, tier)
     L.stage(r3_single, a)
     a.set_fold = None                     # R8's verdict per witness class (None: the fold could not be run)
